@@ -112,11 +112,19 @@ Definition gpt_header_bad (h : list fieldval) (crc : N) : bool :=
                       (get_int GPT_HEADER "header_size" h) (get_int GPT_HEADER "header_crc32" h)
                       (sizeN GPT_HEADER) crc) gpt_init_checks.
 
+(* crc32(bytes(header._replace(header_crc32=0))): the header re-packed (pad bytes
+   zero) with the checksum field cleared.  Re-packing unpacked values cannot
+   fail (Proofs: repack_total), the None branch is never taken. *)
+Definition header_crc_of (h : list fieldval) : N :=
+  match pack GPT_HEADER (set GPT_HEADER gpt_crc_replaced_field (VInt 0) h) with
+  | Some b => crc32 b
+  | None => 0
+  end.
+
 (* DiskPartitionsGPT.__init__ *)
 Definition gpt_init (mem : list N) (ss : N) : res gpt :=
   do h <- unpack_from GPT_HEADER mem (gpt_header_offset ss);
-  do packed <- pack_res GPT_HEADER (set GPT_HEADER gpt_crc_replaced_field (VInt 0) h);
-  if gpt_header_bad h (crc32 packed) then Err ValueError
+  if gpt_header_bad h (header_crc_of h) then Err ValueError
   else Ok {| g_mem := mem; g_ss := ss; g_hdr := h |}.
 
 (* _get_table *)
